@@ -8,7 +8,7 @@
    whole-cache form of freshness, the hard limit at rest and 'nobody waits without a load' remain bounded sweeps
    (names end in _bounded_partial and say the bound). *)
 From Coq Require Import ZArith List Bool.
-From SH Require Import Cache2.Model Cache2.ProofsChunk Cache2.ProofsAcc Cache2.ProofsAwait Cache2.ProofsKey Cache2.ProofsSweep.
+From SH Require Import Cache2.Model Cache2.ProofsChunk Cache2.ProofsAcc Cache2.ProofsAwait Cache2.ProofsKey Cache2.ProofsAnswer Cache2.ProofsLimit Cache2.ProofsSweep.
 Import ListNotations.
 Open Scope Z_scope.
 
@@ -88,6 +88,25 @@ Theorem C23_rows_of_own_query_all_histories_partial : forall CS COL ROW FX ops,
   rids_inc 0 ops -> exists G, KInv G (fst (run CS COL ROW FX st0 ops)).
 Proof. exact rows_of_own_query. Qed.
 
+(* "... never rows of another query ...", for the ANSWERS: in every history whose request ids increase, every answer
+   any step hands back (a Get returning at once, a LoadDone completing requests, a Cancel) belongs to a Get of this
+   history with that request id, and every row in it carries the shard step and query key of that Get.  This ties
+   the returned slice to the request buffer of C23_rows_of_own_query_all_histories_partial.  Partial: shard and
+   query, not yet the slot's time. *)
+Theorem C23_answers_of_own_query_all_histories_partial : forall CS COL ROW FX ops, rids_inc 0 ops ->
+  forall e, In e (concat (snd (run CS COL ROW FX st0 ops))) ->
+  let '(rid, err, cells) := e in
+  exists sp k f t p fo, In (Get rid sp k f t p fo) ops /\ keyed sp k cells.
+Proof. exact answers_of_own_query. Qed.
+
+(* "... trimming and memory limits ...": after every step of EVERY history, when a hard limit is set the cached size
+   is within the soft limit and the soft limit within the hard one - so cache2.tryNotExceedMemoryHardLimit never
+   holds back a request that starts at a quiescent point (part of "no request waits forever"). *)
+Theorem C23_hard_limit_at_rest_all_histories : forall CS COL ROW FX ops,
+  let s := fst (run CS COL ROW FX st0 ops) in
+  l_max s <> 0 -> isize (inf s) <= l_soft s /\ l_soft s <= l_max s.
+Proof. exact limit_at_rest_all_histories. Qed.
+
 (* "every successful non-play request returns, for each slot of the requested range, exactly the rows the storage
    produced for that slot's time, never rows of another query or slot, and never rows from a load that finished
    before an invalidation of that slot completed before the request began. Memory accounting returns to zero
@@ -144,6 +163,12 @@ Example C23_nonvacuous_own_query :
   let ops := [Get 1 1 1 (-8) (-4) 0 false; Get 2 1 1 (-5) (-2) 0 false] in
   rids_inc 0 ops /\ length (reqs (fst (run 2 24 1456 false st0 ops))) = 2%nat /\
   length (entries (fst (run 2 24 1456 false st0 ops))) = 3%nat.
+Proof. vm_compute. repeat split; reflexivity. Qed.
+
+(* the limit theorem is not vacuous: a limit below the cached size is set and the cache is trimmed under it *)
+Example C23_nonvacuous_limit :
+  let s := fst (run 2 24 1456 false st0 [Get 1 1 1 (-8) (-4) 0 false; LoadDone 1 true; SetLimits 0 5000 0]) in
+  l_max s = 5000 /\ l_soft s = 4000 /\ isize (inf s) = 0.
 Proof. vm_compute. repeat split; reflexivity. Qed.
 
 (* accounting is not vacuous: a state with two cached chunks whose sizes add up to the water level *)
